@@ -201,7 +201,28 @@ func NewSM4BlockCrypt(key []byte) (BlockCrypt, error) {
 	if err != nil {
 		return nil, err
 	}
+	// the SM4 implementation keeps per-instance scratch buffers, while Encrypt (send path) and
+	// Decrypt (receive path) of one BlockCrypt may run at the same time: serialise the block calls
+	block = &lockedBlock{Block: block}
 	return newBlockCrypt(block), nil
+}
+
+// lockedBlock serialises the calls into a cipher.Block that is not safe for concurrent use
+type lockedBlock struct {
+	cipher.Block
+	mu sync.Mutex
+}
+
+func (b *lockedBlock) Encrypt(dst, src []byte) {
+	b.mu.Lock()
+	b.Block.Encrypt(dst, src)
+	b.mu.Unlock()
+}
+
+func (b *lockedBlock) Decrypt(dst, src []byte) {
+	b.mu.Lock()
+	b.Block.Decrypt(dst, src)
+	b.mu.Unlock()
 }
 
 // NewTwofishBlockCrypt https://en.wikipedia.org/wiki/Twofish
